@@ -79,7 +79,16 @@ def run_case(ctx, kind_, idx):
                     if mode == "to_function":
                         wv.to_function()(float(wv.get()[0][0]))
                         hist.append("to_function()")
-                    hist += W.random_history(rng, wv, 1, 2, allow=["shift_y", "scale_y", "trend", "noise", "normalize_y"])
+                    if mode == "to_function" and rng.integers(0, 2):
+                        # get() hands out the Weaver's own arrays: a caller that post-processes them in place (clipping,
+                        # masking) must still get a function consistent with what get() now returns
+                        gy = wv.get()[1]
+                        if isinstance(gy, np.ndarray) and gy.flags.writeable and gy.dtype.kind == "f":
+                            k = int(rng.integers(0, len(gy)))
+                            gy[k] += float(rng.choice([1.0, -2.5])) * (float(np.max(np.abs(gy))) or 1.0)
+                            hist.append("in-place write into get()[1][%d]" % k)
+                    else:
+                        hist += W.random_history(rng, wv, 1, 2, allow=["shift_y", "scale_y", "trend", "noise", "normalize_y"])
                     info["history"] = hist
                     x, y = (np.array(a, dtype=float).copy() for a in wv.get())
                     meta["ycls"] = "after_history"
